@@ -16,7 +16,7 @@ Case format (all JSON):
       | {"l": [values], "w": 1} same, but passed through a workflow input (lazy at construction)
       | {"n": "N0"}             output `out` of an earlier node
 
-Every node is the python task `Enc(tag, x, y) -> [tag, x, y]`, so the routing of upstream outputs is visible in the
+Every node is the python task `Enc(tag, x, y, z) -> [tag, x, y, z]`, so the routing of upstream outputs is visible in the
 outputs.  Each case gets its own generated module with unique function names (pydra hashes classes by source, D28).
 """
 
@@ -26,6 +26,7 @@ import importlib.util
 import itertools
 import json
 import sys
+import tempfile
 import typing as ty
 from pathlib import Path
 
@@ -33,8 +34,8 @@ from pydra.compose import python, workflow
 
 
 @python.define(outputs=["out"])
-def Enc(tag: ty.Any, x: ty.Any = None, y: ty.Any = None) -> ty.Any:
-    return [tag, x, y]
+def Enc(tag: ty.Any, x: ty.Any = None, y: ty.Any = None, z: ty.Any = None) -> ty.Any:
+    return [tag, x, y, z]
 
 
 _uid = itertools.count()
@@ -124,8 +125,8 @@ def run_case(case: dict, scratch: Path, keep_exc: bool = False) -> dict:
     uid = f"{next(_uid)}"
     src, wf_inputs = gen_source(case, uid)
     Workflow.clear_cache()
-    cache_root = Path(scratch) / f"cache_{uid}"
-    cache_root.mkdir(parents=True, exist_ok=True)
+    Path(scratch).mkdir(parents=True, exist_ok=True)
+    cache_root = Path(tempfile.mkdtemp(prefix=f"cache_{uid}_", dir=scratch))  # always fresh: job dirs are counted
     phase = "define"
     try:
         mod = load_module(src, scratch, uid)
@@ -142,9 +143,7 @@ def run_case(case: dict, scratch: Path, keep_exc: bool = False) -> dict:
         jobs = count_jobs(cache_root, case)
         return {"out": outs, "jobs": jobs}
     except Exception as e:  # noqa: BLE001  (every exception is an observable here)
-        root = e
-        while root.__cause__ is not None or (root.__context__ is not None and not root.__suppress_context__):
-            root = root.__cause__ or root.__context__
+        root = e  # the Submitter re-raises the original exception (with a note), no wrapping
         r = {"error": core.exc_tag(root), "phase": phase}
         if keep_exc:
             import traceback
